@@ -12,7 +12,7 @@ CONSTANTS Sessions,     \* subset of DOMAIN SessDef
           CommCounts, LCommCounts, ClusterCounts,
           UnknownSizes, \* sizes of one unknown transitive attribute (0 = none)
           PfxCounts, PfxLens,
-          Flavours      \* subset of {"plain", "otc", "med", "prepend-full-segment", "two-unknown"}
+          Flavours      \* subset of {"plain", "otc", "med", "prepend-full-segment", "prepend-many", "two-unknown"}
 
 VARIABLES c             \* the case
 
@@ -37,7 +37,9 @@ CeilDiv(a, b) == (a + b - 1) \div b
 AttrLen(v) == v + (IF v > 255 THEN 4 ELSE 3)
 
 (* AS_PATH: segments of at most 255 ASNs *)
-ASN == IF c.flavour = "prepend-full-segment" THEN c.as + 1 ELSE c.as      \* one more ASN prepended at export
+ASN == CASE c.flavour = "prepend-full-segment" -> c.as + 1                \* one more ASN prepended at export
+         [] c.flavour = "prepend-many" -> c.as + 10                        \* a policy prepends the local AS ten times
+         [] OTHER -> c.as
 ASSegments == CeilDiv(ASN, 255)
 ASPathValue == 2 * ASSegments + ASN * (IF S.asn4 THEN 4 ELSE 2)
 
